@@ -108,6 +108,17 @@ for line in sys.stdin:
                 ks.append([list(t) for t in pk.KmerGenerator(b.decode("utf-8"), k)])
             for b in bs:
                 ms.append([list(t) for t in pk.MinimiserGenerator(b.decode("utf-8"), req["w"], req["m"])])
+            # all objects built back to back (nothing but the small generator object is allocated between two
+            # constructor calls), iterated afterwards
+            gens = [pk.KmerGenerator(b.decode("utf-8"), k) for b in bs]
+            mgens = [pk.MinimiserGenerator(b.decode("utf-8"), req["w"], req["m"]) for b in bs]
+            ks2 = [[list(t) for t in g] for g in gens]
+            ms2 = [[list(t) for t in g] for g in mgens]
+            for i in range(len(bs)):
+                if ks2[i] != ks[i]:
+                    ks[i] = ks2[i]
+                if ms2[i] != ms[i]:
+                    ms[i] = ms2[i]
             # once more without keeping the items (no allocations between two constructor calls)
             counts = [sum(1 for _ in pk.KmerGenerator(b.decode("utf-8"), k)) for b in bs]
             mcounts = [sum(1 for _ in pk.MinimiserGenerator(b.decode("utf-8"), req["w"], req["m"])) for b in bs]
